@@ -1,5 +1,54 @@
-/- C10 uses the forecaster state machine; same line protocol as C03. -/
+/- C10 uses the forecaster state machine; same line protocol as C03, plus
+   pirun <probe:w | plain:last> <mode o|r> <op> ...     prediction-interval layer (Model/PredInt.lean)
+   with the extra ops  predi|fh|rpi|alpha   upsi|y|fh|b|rpi|alpha   upi|y|cv|b|rpi|alpha
+   alpha = o:<per-mille> | m:<per-mille list>           -/
 import SkVerif.Drv.C03
+import SkVerif.Model.PredInt
 namespace SkVerif.Drv.C10
-def handle (toks : List String) : String := SkVerif.Drv.C03.handle toks
+open SkVerif SkVerif.Fc SkVerif.Drv SkVerif.Drv.C03
+
+def parseAlpha? (s : String) : Option AlphaArg :=
+  match s.splitOn ":" with
+  | ["o", k] => (parseInt? k).map AlphaArg.one
+  | ["m", ks] => (parseIntList? ks).map AlphaArg.many
+  | _ => none
+
+def parseIOp? (s : String) : Option IOp :=
+  match s.splitOn "|" with
+  | ["predi", fh, r, a] => do
+      pure (IOp.predict (← parseFhArg? fh) ⟨← parseBool? r, ← parseAlpha? a⟩)
+  | ["upsi", y, fh, b, r, a] => do
+      pure (IOp.updatePredictSingle (← parseSeries? y) (← parseFhArg? fh) (← parseBool? b) ⟨← parseBool? r, ← parseAlpha? a⟩)
+  | ["upi", y, cv, b, r, a] => do
+      pure (IOp.updatePredict (← parseSeries? y) (← parseCv? cv) (← parseBool? b) ⟨← parseBool? r, ← parseAlpha? a⟩)
+  | _ => (parseOp? s).map IOp.base
+
+def showTable (t : List IRow) : String :=
+  ",".intercalate (t.map (fun r => s!"{r.1}:{showORat r.2.1}~{showORat r.2.2}"))
+
+def showIOut : IOut → String
+  | .plain o => showOut false o
+  | .withInt p ts single =>
+      s!"S[{showSeries false p}]" ++ (if single then "+I1[" else "+IL[") ++ ";".intercalate (ts.map showTable) ++ "]"
+
+def runShowI (ic : ICore) (mode : FhMode) : FState → List IOp → List String
+  | s, [] => [s!"Y[{showSeries false s.y}]"]
+  | s, op :: ops =>
+    let (s1, o) := stepI ic mode s op
+    (showIOut o ++ showState false s1) :: runShowI ic mode s1 ops
+
+def parseICore? (s : String) : Option ICore :=
+  match s.splitOn ":" with
+  | ["probe", w] => (parseInt? w).map icoreProbe
+  | ["plain", "last"] => some (icorePlain coreLast)
+  | _ => none
+
+def handle (toks : List String) : String :=
+  match toks with
+  | "pirun" :: core :: mode :: ops =>
+    match parseICore? core, (if mode == "o" then some FhMode.optional else if mode == "r" then some FhMode.required else none),
+          ops.mapM parseIOp? with
+    | some ic, some m, some ops => " ".intercalate (runShowI ic m {} ops)
+    | _, _, _ => "bad-op"
+  | _ => SkVerif.Drv.C03.handle toks
 end SkVerif.Drv.C10
